@@ -141,13 +141,21 @@ def _alarm(signum, frame):
 
 
 def with_timeout(seconds, func, *args):
-    old = signal.signal(signal.SIGALRM, _alarm)
-    signal.setitimer(signal.ITIMER_REAL, seconds)
+    """Per-case watchdog.  The budget is CPU time of this process (ITIMER_PROF), not wall
+    time, so that a loaded machine cannot turn a fast case into a spurious Timeout; a
+    generous wall-clock alarm (20x) backs it up against a case that blocks without
+    consuming CPU."""
+    old_p = signal.signal(signal.SIGPROF, _alarm)
+    old_a = signal.signal(signal.SIGALRM, _alarm)
+    signal.setitimer(signal.ITIMER_PROF, seconds)
+    signal.setitimer(signal.ITIMER_REAL, 20 * seconds)
     try:
         return func(*args)
     finally:
+        signal.setitimer(signal.ITIMER_PROF, 0)
         signal.setitimer(signal.ITIMER_REAL, 0)
-        signal.signal(signal.SIGALRM, old)
+        signal.signal(signal.SIGPROF, old_p)
+        signal.signal(signal.SIGALRM, old_a)
 
 
 # ------------------------------------------------------------------ Coq side
